@@ -21,19 +21,20 @@ type FuncWork struct {
 	Kind    string  `json:"kind"` // after | before | once | retry | retrydelay
 	N       int     `json:"n"`
 	Calls   int     `json:"calls"`
-	Pattern int     `json:"pattern"`          // bit i set: attempt i of the retried callback fails
-	DelayNs int64   `json:"delay_ns"`         // RetryWithDelay
-	ExpNs   int64   `json:"exp_ns"`           // default expiry of the cache behind Before/Once (<=0: never)
-	GapsNs  []int64 `json:"gaps_ns"`          // simulated sleep before call i
-	LatNs   int64   `json:"lat_ns"`           // simulated latency of the callback (callback_slow)
-	Shared  bool    `json:"shared,omitempty"` // before: the cache was first used by a Once wrapper (both memoise under one fixed key)
-	Base    int     `json:"base"`             // execution k of the callback returns Base+k: 0 makes the first result the zero value
+	Pattern int     `json:"pattern"`              // bit i set: attempt i of the retried callback fails
+	DelayNs int64   `json:"delay_ns"`             // RetryWithDelay
+	ExpNs   int64   `json:"exp_ns"`               // default expiry of the cache behind Before/Once (<=0: never)
+	GapsNs  []int64 `json:"gaps_ns"`              // simulated sleep before call i
+	LatNs   int64   `json:"lat_ns"`               // simulated latency of the callback (callback_slow)
+	CleanNs int64   `json:"cleanup_ns,omitempty"` // before/once: cleanup interval of the cache (its janitor goroutine is a scheduled task)
+	Shared  bool    `json:"shared,omitempty"`     // before: the cache was first used by a Once wrapper (both memoise under one fixed key)
+	Base    int     `json:"base"`                 // execution k of the callback returns Base+k: 0 makes the first result the zero value
 }
 
 func (w *FuncWork) Sim() SimSpec { return w.P }
 
 func (w *FuncWork) Key() string {
-	return fmt.Sprintf("c18/%s/n=%d/calls=%d/pat=%d/d=%d/exp=%d/gaps=%v/lat=%d/tf=%v", w.Kind, w.N, w.Calls, w.Pattern, w.DelayNs, w.ExpNs, w.GapsNs, w.LatNs, w.P.TimeFaults) + fmt.Sprintf("/base=%d/shared=%v", w.Base, w.Shared)
+	return fmt.Sprintf("c18/%s/n=%d/calls=%d/pat=%d/d=%d/exp=%d/gaps=%v/lat=%d/tf=%v", w.Kind, w.N, w.Calls, w.Pattern, w.DelayNs, w.ExpNs, w.GapsNs, w.LatNs, w.P.TimeFaults) + fmt.Sprintf("/base=%d/shared=%v/clean=%d", w.Base, w.Shared, w.CleanNs)
 }
 
 func (w *FuncWork) ShapeName() string {
@@ -111,7 +112,7 @@ func (w *FuncWork) Exec(x *Exec) {
 			}
 		case "before":
 			n := w.N
-			c := cache.New[string, int](time.Duration(w.ExpNs), 0)
+			c := cache.New[string, int](time.Duration(w.ExpNs), time.Duration(w.CleanNs))
 			if w.Shared {
 				// another wrapper has memoised into this cache before (not part of the recorded history)
 				gogu.Once[string, int, int](c, func() int { return 777 })
@@ -120,7 +121,7 @@ func (w *FuncWork) Exec(x *Exec) {
 				call(i, func(fc *fcall) { fc.Res = gogu.Before[string, int, int](&n, c, func() int { return run(false) }) })
 			}
 		case "once":
-			c := cache.New[string, int](time.Duration(w.ExpNs), 0)
+			c := cache.New[string, int](time.Duration(w.ExpNs), time.Duration(w.CleanNs))
 			for i := 0; i < w.Calls; i++ {
 				call(i, func(fc *fcall) { fc.Res = gogu.Once[string, int, int](c, func() int { return run(false) }) })
 			}
@@ -413,9 +414,16 @@ func genC18(r *simrt.Rand, tier string, idx uint64) Workload {
 		w.Calls = int((sub / 11) % 13)
 		w.ExpNs = []int64{-1, 0, 50 * ms}[r.Intn(3)]
 		w.Shared = r.Intn(5) == 0
+		if r.Intn(4) == 0 {
+			w.CleanNs = []int64{20 * ms, 7 * ms}[r.Intn(2)]
+		}
 	case "once":
 		w.Calls = 1 + int((sub/11)%8)
 		w.ExpNs = []int64{-1, 0, 40 * ms, 40 * ms}[r.Intn(4)]
+		if r.Intn(3) == 0 {
+			// the cache behind Once has a cleanup goroutine: it must only ever remove the expired entry
+			w.CleanNs = []int64{20 * ms, 7 * ms}[r.Intn(2)]
+		}
 	case "retry":
 		w.Pattern = int((sub / 11) % 256)
 	case "retrydelay":
